@@ -35,7 +35,11 @@ def kernelCfg : Cfg :=
       ("used", "used"), ("free", "free"), ("active", "active"), ("inactive", "inactive"),
       ("buffers", "buffers"), ("cached", "cached"), ("shared", "shared"), ("slab", "slab")]
     sswapLayout := [("total", "total"), ("used", "used"), ("free", "free"),
-      ("percent", "percent"), ("sin", "sin"), ("sout", "sout")] }
+      ("percent", "percent"), ("sin", "sin"), ("sout", "sout")]
+    sysCOrder := ["totalram", "freeram", "bufferram", "sharedram", "totalswap", "freeswap", "mem_unit"]
+    sysUnpack := ["_", "_", "_", "_", "total", "free", "unit_multiplier"]
+    sysTotalTimesUnit := true, sysFreeTimesUnit := true
+    primesTotalPhymem := true, phymemField := "total", memPercentUsesCache := true }
 
 
 /-! ## Text lemmas: the three renderers against the parsers -/
@@ -101,6 +105,87 @@ theorem not_mem_spaces (n c : Nat) (hc : c ≠ 32) : c ∉ spaces n := by
   simp [spaces, List.mem_replicate]
   intro _ h; exact hc h
 
+theorem lstripWs_spaces (n : Nat) (s : Bytes) : lstripWs (spaces n ++ s) = lstripWs s := by
+  induction n with
+  | zero => simp [spaces]
+  | succ n ih =>
+    have : spaces (n + 1) = 32 :: spaces n := by simp [spaces, List.replicate_succ]
+    rw [this]
+    simp only [List.cons_append, lstripWs]
+    simp [isWs, ih]
+
+theorem lstripWs_cons (c : Nat) (s : Bytes) (hc : isWs c = false) : lstripWs (c :: s) = c :: s := by
+  simp [lstripWs, hc]
+
+theorem rstripWs_append_noWs (x y : Bytes) (hy : y ≠ []) (hn : NoWs y) :
+    rstripWs (x ++ y) = x ++ y := by
+  unfold rstripWs
+  rw [List.reverse_append]
+  cases hr : y.reverse with
+  | nil => simp at hr; exact absurd hr hy
+  | cons c r =>
+    have hc : isWs c = false := hn c (by
+      have : c ∈ y.reverse := by rw [hr]; simp
+      simpa using this)
+    rw [List.cons_append, lstripWs_cons _ _ hc, ← List.cons_append, ← hr, ← List.reverse_append]
+    simp
+
+theorem stripWs_spaces (n : Nat) (s : Bytes) : stripWs (spaces n ++ s) = stripWs s := by
+  unfold stripWs
+  rw [lstripWs_spaces]
+
+theorem stripWs_noWs (s : Bytes) (h : NoWs s) : stripWs s = s := by
+  cases s with
+  | nil => simp [stripWs, rstripWs, lstripWs]
+  | cons c r =>
+    unfold stripWs
+    rw [lstripWs_cons _ _ (h c (by simp))]
+    have := rstripWs_append_noWs [] (c :: r) (by simp) h
+    simpa using this
+
+
+/-! ### `int()` on what the kernel prints -/
+
+theorem litGo_digits (s : Bytes) (h : ∀ c ∈ s, isDigit c = true) (st : LitSt) (acc : Nat)
+    (hne : s ≠ [] ∨ st = .digit) : litGo s st acc = parseRadixAux decimal s acc := by
+  induction s generalizing st acc with
+  | nil =>
+    rcases hne with h0 | h0
+    · exact absurd rfl h0
+    · subst h0; rfl
+  | cons c cs ih =>
+    have hc := h c (by simp)
+    have hv : decimal.val c = some (c - 48) := by
+      have : 48 ≤ c ∧ c ≤ 57 := by simpa [isDigit] using hc
+      simp [decimal, this]
+    simp only [litGo, hc, if_true, parseRadixAux, hv]
+    exact ih (fun x hx => h x (by simp [hx])) .digit _ (Or.inr rfl)
+
+/-- `int(b"<decimal rendering of n>") = n` -/
+theorem pyIntLit_renderDec (n : Nat) : pyIntLit (renderDec n) = .nat n := by
+  unfold pyIntLit
+  rw [stripWs_noWs _ (renderDec_noWs n)]
+  have hd := renderDec_isDigit n
+  have hp := parseDec_renderDec n
+  cases hr : renderDec n with
+  | nil => exact absurd hr (renderDec_ne_nil n)
+  | cons c cs =>
+    rw [hr] at hd hp
+    have hc := hd c (by simp)
+    have h45 : c ≠ 45 := by intro e; subst e; simp [isDigit] at hc
+    have h43 : c ≠ 43 := by intro e; subst e; simp [isDigit] at hc
+    have hsb : signSplit (c :: cs) = (false, c :: cs) := by
+      unfold signSplit
+      split
+      · next r he => cases he; exact absurd rfl h45
+      · next r he => cases he; exact absurd rfl h43
+      · rfl
+    simp only [hsb]
+    rw [litGo_digits (c :: cs) hd .start 0 (Or.inl (by simp))]
+    have : parseRadixAux decimal (c :: cs) 0 = some n := by
+      simpa [parseDec?, parseRadix?] using hp
+    simp [this]
+
 /-- the key psutil sees: name plus colon -/
 def kv (f : Nat) (e : Entry) : Bytes × Nat := (e.name ++ [58], e.val * f)
 
@@ -131,7 +216,7 @@ theorem parseLine_entry (f : Nat) (e : Entry) (h : e.WF) :
   obtain ⟨tl, htl⟩ := splitWs_entry e h
   unfold parseLine
   simp only [htl]
-  simp [parseDec_renderDec, kv]
+  simp [pyIntLit_renderDec, kv]
 
 theorem parseLines_entries (f : Nat) (es : List Entry) (h : ∀ e ∈ es, e.WF) (acc : Mems) :
     parseLines ⟨0, 1, f⟩ (es.map renderEntry) acc = .ok ((es.map (kv f)).reverse ++ acc) := by
@@ -188,35 +273,6 @@ theorem lookup_parsed (f : Nat) (es : List Entry) (k : Bytes) :
 
 /-! ### /proc/zoneinfo -/
 
-theorem lstripWs_spaces (n : Nat) (s : Bytes) : lstripWs (spaces n ++ s) = lstripWs s := by
-  induction n with
-  | zero => simp [spaces]
-  | succ n ih =>
-    have : spaces (n + 1) = 32 :: spaces n := by simp [spaces, List.replicate_succ]
-    rw [this]
-    simp only [List.cons_append, lstripWs]
-    simp [isWs, ih]
-
-theorem lstripWs_cons (c : Nat) (s : Bytes) (hc : isWs c = false) : lstripWs (c :: s) = c :: s := by
-  simp [lstripWs, hc]
-
-theorem rstripWs_append_noWs (x y : Bytes) (hy : y ≠ []) (hn : NoWs y) :
-    rstripWs (x ++ y) = x ++ y := by
-  unfold rstripWs
-  rw [List.reverse_append]
-  cases hr : y.reverse with
-  | nil => simp at hr; exact absurd hr hy
-  | cons c r =>
-    have hc : isWs c = false := hn c (by
-      have : c ∈ y.reverse := by rw [hr]; simp
-      simpa using this)
-    rw [List.cons_append, lstripWs_cons _ _ hc, ← List.cons_append, ← hr, ← List.reverse_append]
-    simp
-
-theorem stripWs_spaces (n : Nat) (s : Bytes) : stripWs (spaces n ++ s) = stripWs s := by
-  unfold stripWs
-  rw [lstripWs_spaces]
-
 theorem stripWs_low (i p v : Nat) :
     stripWs (renderZLine (.low i p v)) = K "low" ++ spaces (p + 1) ++ renderDec v := by
   show stripWs (spaces i ++ K "low" ++ spaces (p + 1) ++ renderDec v) = _
@@ -258,7 +314,7 @@ theorem watermarkLow_render (zs : List ZLine) (h : ∀ z ∈ zs, z.WF) :
         rw [splitWs_tok _ _ _ noWs_low (by decide),
           splitWs_single _ (renderDec_noWs v) (renderDec_ne_nil v)]
       rw [hp, hi, hsw, hsp]
-      simp [parseDec_renderDec, ih']
+      simp [pyIntLit_renderDec, ih']
 
 theorem nl_not_mem_zline (z : ZLine) (h : z.WF) : 10 ∉ renderZLine z := by
   cases z with
@@ -283,15 +339,6 @@ theorem watermarkLow_zoneinfo (zs : List ZLine) (h : ∀ z ∈ zs, z.WF) :
 
 
 /-! ### /proc/vmstat -/
-
-theorem stripWs_noWs (s : Bytes) (h : NoWs s) : stripWs s = s := by
-  cases s with
-  | nil => simp [stripWs, rstripWs, lstripWs]
-  | cons c r =>
-    unfold stripWs
-    rw [lstripWs_cons _ _ (h c (by simp))]
-    have := rstripWs_append_noWs [] (c :: r) (by simp) h
-    simpa using this
 
 theorem isPrefixOf_sep (P n rest : Bytes) (c : Nat) (hc : c ∉ P)
     (h : P.isPrefixOf (n ++ c :: rest) = true) : P.isPrefixOf n = true := by
@@ -328,7 +375,7 @@ theorem vmstatField_render (l : VLine) (h : NoWs l.name) (f : Nat) :
   have h32 : 32 ∉ l.name := noWs_not_mem h 32 (by decide)
   rw [List.append_assoc, List.singleton_append, splitOn_append 32 _ _ h32,
     splitOn_noSep 32 _ (renderDec_not_mem l.val 32 (by decide))]
-  simp [pyInt?, stripWs_noWs _ (renderDec_noWs l.val), parseDec_renderDec]
+  simp [pyIntLit_renderDec]
 
 theorem startsWith_line (P : Bytes) (l : VLine) (h32 : 32 ∉ P) :
     startsWith P (renderVLine l) = startsWith P l.name := by
